@@ -287,6 +287,9 @@ let handle line =
       (match keep_order (nat_of_int 200) (nums imported) ms with
        | None -> "FUEL"
        | Some r -> Stdlib.String.concat "," (List.map (fun m -> string_of_int (int_of_n m.k_name)) r))
+  | ["layout"; ms] ->
+      (* module keys separated by ; -> key:0/1 for every visited key, in processing order *)
+      Stdlib.String.concat ";" (List.map (fun (m, b) -> tok_of_str m ^ ":" ^ (if b then "1" else "0")) (layout (strs_of_tok ms)))
   | ["c2s"; s] -> tok_of_str (camel_to_snake u0 (str_of_tok s))
   | ["s2uc"; d; s] -> tok_of_str (s2uc u0 (n_of_int (int_of_string d)) (str_of_tok s))
   | _ -> "BADREQ"
